@@ -2,6 +2,7 @@
 // (DESIGN.md 3.4): vp_detector, vp_action, vp_probe, vp_hook.
 #pragma once
 #include <json/json.h>
+#include <atomic>
 #include <functional>
 #include <string>
 
@@ -16,7 +17,7 @@ struct Scripts {
   // "actions":   { id -> {"r":..,"pause":n} | "C"|"S"|"A" | [per tick ...] }
   // "hooks":     { id -> {"polls":[k per fire]} }   k<0: never finishes
   Json::Value j;
-  int next_serial{1};
+  std::atomic<int> next_serial{1};
   // probe callback (C15): invoked from vp_probe::run with the real context
   std::function<void(Oomd::OomdContext&, const std::string& id)> probe;
   void reset(const Json::Value& scripts) {
